@@ -1,4 +1,5 @@
 """C08 — units of results follow dimensional analysis, independent of factor order."""
+import collections
 from fractions import Fraction as F
 
 from props import _units as X
@@ -38,10 +39,41 @@ LEVEL_TEXT = ("Lean 4 theorems over an exact list/Rat model of units.py whose op
 LEVEL_NOTE = ("proved of the Lean model for all trees; binary64 exponent arithmetic (thirds) is outside the "
               "exact model and such cases are skipped, not judged")
 TECHNIQUE = "Lean 4 theorems over an exact list/Rat model + translator-generated dispatch table"
+CLEANROOM = True    # the reported input is confirmed stand-alone in a new process (vf/check.py)
+
+
+def related(rng, t, kind):
+    """a formula related to t: the same, one binary node with its operands exchanged, or every
+    leaf unit written in the reverse factor order"""
+    if kind == "same":
+        return t
+    if kind == "leaves-rewritten":
+        def rew(x):
+            if x[0] == "leaf":
+                u = list(reversed(X.units_from_json(x[1])))
+                if len(u) < 2 or any(e.denominator != 1 for _, e in u):
+                    return x
+                return ["leaf", X.units_json(u), X.unit_string(u, rng.choice(["*", X.DOT]))] + x[3:]
+            if x[0] == "powc":
+                return ["powc", rew(x[1])] + x[2:]
+            if x[0] == "node":
+                return ["node", x[1], [rew(y) for y in x[2]]]
+            if x[0] in X.WRAPPERS:
+                return [x[0], rew(x[1])] + x[2:]
+            return x
+        r = rew(t)
+        return r if r != t else None
+    paths = [p for p in UF._paths(t) if UF._get(t, p)[0] == "node" and len(UF._get(t, p)[2]) == 2]
+    if not paths:
+        return None
+    p = min(paths, key=len) if rng.random() < 0.6 else rng.choice(paths)
+    nd = UF._get(t, p)
+    return UF._set(t, p, ["node", nd[1], [nd[2][1], nd[2][0]]])
 
 
 def gen_cases(rng, n):
     cases, skipped = [], 0
+    tags = collections.Counter()
     # fixed corpus: the probe that showed the defect and its relatives
     def lf(u, sep="*"):
         return ["leaf", X.units_json(u), X.unit_string(u, sep)]
@@ -63,6 +95,58 @@ def gen_cases(rng, n):
     ]
     for t in corpus + UF.probes():
         cases.append([["eval", t]])
+    # NEAR MISSES (deliberate, every kind several times per run): a +/- whose operands differ
+    # genuinely but by little — an exponent off by 1/2, 1/3, 1/6 or 1, two exponents exchanged,
+    # a sign, one more / one fewer symbol, proportional exponents, another letter case — with
+    # integer and with half-integer base exponents; must warn and give no unit
+    per_kind = max(3, n // 80)
+    for kind in X.NEAR_KINDS:
+        made = tries = 0
+        while made < per_kind and tries < 40 * per_kind:
+            tries += 1
+            syms = rng.sample(X.SYMS, rng.randint(1, 3))
+            r = X.near_mismatch_tree(rng, kind, rng.choice([0, 1, 1, 2]), syms)
+            if r is None or X.dim_tree(r[0], {})[0] != "mismatch" or X.tree_size(r[0]) > 60:
+                continue
+            t = r[0]
+            if rng.random() < 0.3:
+                t = UF.vary_types(rng, t)
+            if not X.float_ok(t, {}):
+                skipped += 1
+                tags["not-judged:binary64-decision:" + r[1]] += 1
+                continue
+            made += 1
+            tags[r[1]] += 1
+            cases.append([["eval", t]])
+    # HISTORIES of evaluations in one session (deliberate): a formula, then a RELATED formula — the
+    # same again, the operands of one node exchanged (t/d after d/t), the leaf units written in
+    # another factor order, the same genuine mismatch twice (it must warn twice).  Each evaluation
+    # is judged on its own formula; the earlier ones stay in the replay (they are the history)
+    made = tries = 0
+    while made < max(24, n // 12) and tries < 2000:
+        tries += 1
+        syms = rng.sample(X.SYMS, rng.randint(1, 3))
+        if rng.random() < 0.3:
+            r = X.near_mismatch_tree(rng, rng.choice(X.NEAR_KINDS), 1, syms)
+            t1 = r[0] if r else None
+        else:
+            t1 = X.gen_tree(rng, rng.choice([1, 2, 2, 3]), syms, constdiv=True)
+        if t1 is None or t1[0] == "leaf" or X.tree_size(t1) > 30:
+            continue
+        kind = rng.choice(["same", "operands-exchanged", "operands-exchanged", "leaves-rewritten"])
+        t2 = related(rng, t1, kind)
+        if t2 is None:
+            continue
+        ds = [X.dim_tree(t, {}) for t in (t1, t2)]
+        if any(d[0] not in ("ok", "mismatch") or (d[0] == "ok" and not X.ok_exps(d[1]))
+                             for d in ds) or not (X.float_ok(t1, {}) and X.float_ok(t2, {})):
+            continue
+        h = [["eval", t1, {"keep": True}], ["eval", t2, {"keep": True}]]
+        if rng.random() < 0.4:
+            h.append(["eval", t1])
+        cases.append(h)
+        tags["history:then-related-formula:" + kind + (":mismatch" if ds[0][0] == "mismatch" else "")] += 1
+        made += 1
     n += len(cases)
     while len(cases) < n:
         depth = rng.choice([2, 3, 3, 4, 4, 5])
@@ -70,14 +154,14 @@ def gen_cases(rng, n):
         r = rng.random()
         if r < 0.12:
             # genuine mismatch at the root
-            a = X.gen_tree(rng, depth - 1, syms)
-            b = X.gen_tree(rng, depth - 1, syms)
+            a = X.gen_tree(rng, depth - 1, syms, constdiv=True)
+            b = X.gen_tree(rng, depth - 1, syms, constdiv=True)
             da, db = X.dim_tree(a, {}), X.dim_tree(b, {})
             if da[0] != "ok" or db[0] != "ok" or da[1] == db[1]:
                 continue
             t = ["node", rng.choice(["add", "sub"]), [a, b]]
         else:
-            t = X.gen_tree(rng, depth, syms)
+            t = X.gen_tree(rng, depth, syms, constdiv=True)
             if r < 0.5 and t[0] != "leaf":
                 # force a sum at the root so that routes are exercised often
                 d = X.dim_tree(t, {})
@@ -96,12 +180,13 @@ def gen_cases(rng, n):
             skipped += 1
             continue
         cases.append([["eval", t]])
-    return cases, skipped
+    return cases, skipped, tags
 
 
 def correspond(ctx):
-    cases, skipped = gen_cases(ctx.rng, ctx.n(400, 20000))
+    cases, skipped, tags = gen_cases(ctx.rng, ctx.n(400, 20000))
     r = X.run_cases(ctx, ID, cases)
+    r["distribution"].update(tags)
     nontrivial = set()
     for (ci, t, dh, dm, o, si) in r.pop("evals"):
         if X.differently_ordered_sum(t):
@@ -113,13 +198,13 @@ def correspond(ctx):
 
 def search(ctx, broken):
     out = {"failures": [], "strategy": []}
-    cases, _ = gen_cases(ctx.rng, ctx.n(1500, 20000))
+    cases, _, _ = gen_cases(ctx.rng, ctx.n(1500, 20000))
     r = X.run_cases(ctx, ID, cases, use_model=False)
     out["failures"] += [f for f in r["failures"] if f.get("oracle") == "independent"]
     out["strategy"].append("exact dimensional analysis on Fractions as oracle: {} trees".format(
         r["evaluations"]))
     try:
-        cases, _ = gen_cases(ctx.rng, ctx.n(600, 5000))
+        cases, _, _ = gen_cases(ctx.rng, ctx.n(600, 5000))
         r = X.run_cases(ctx, ID, cases, ref=True)
         for f in r["failures"]:
             if f["signature"].startswith("c08:model-differs"):
@@ -137,6 +222,12 @@ def replay(ctx, rp):
     t = (f.get("shrunk") or {}).get("tree") or f.get("tree")
     if not t:
         return {"fails": False, "note": "replay file carries no concrete input", "payload": rp}
-    (_, dh, dm, o, _), = X.run_history(q, [["eval", t]])
+    # the history the failing evaluation was found after (earlier evaluations in the same
+    # session) is part of the input when the record carries one
+    hist = f.get("history") or []
+    if not (f.get("carries_history") and hist and hist[-1][0] == "eval" and hist[-1][1] == t):
+        hist = [["eval", t]]
+    (_, dh, dm, o, _) = X.run_history(q, hist)[-1]
     fs = X.judge_eval(ID, t, dh, o)
-    return {"fails": bool(fs), "input": X.pretty_tree(t), "impl": o, "failures": fs}
+    return {"fails": bool(fs), "input": X.pretty_tree(t) + (
+        "  with " + X.describe_prefix(hist[:-1]) if len(hist) > 1 else ""), "impl": o, "failures": fs}
